@@ -315,6 +315,71 @@ def obligation_standalone(name: str, src: str):
     return rc == 0 and "error" not in out and "sorry" not in out, out[-600:]
 
 
+# ------------------------------------------------------------------ C03 decision operators of shuffle_test
+
+_CMP = {ast.Gt: "gt", ast.GtE: "ge", ast.Lt: "lt", ast.LtE: "le"}
+_FLIP = {"gt": "lt", "ge": "le", "lt": "gt", "le": "ge"}
+_PCT_FORMS = {"100 * (1 - alpha)", "(1 - alpha) * 100", "100 - 100 * alpha", "100.0 * (1.0 - alpha)", "100 * (1.0 - alpha)", "(1.0 - alpha) * 100"}
+
+
+def shuffle_shape():
+    """Reads the comparison operators of `shuffle_test`'s verdict and p-value off the source. Recognised shape only:
+    a returned dict literal with "Pass": observed <op> threshold (either way round), threshold = np.percentile(NULL, 100*(1-alpha)),
+    "P_value": np.mean(NULL <op> observed) (either way round). Anything else is Untranslatable (not an alarm)."""
+    fn = _funcs(_parse(DISC)).get("shuffle_test")
+    if fn is None:
+        raise Untranslatable("shuffle_test not found")
+    params = [a.arg for a in fn.args.args]
+    if len(params) < 4:
+        raise Untranslatable("unexpected signature")
+    obs = params[3]
+    assigns = {}
+    for st in fn.body:
+        if isinstance(st, ast.Assign) and len(st.targets) == 1 and isinstance(st.targets[0], ast.Name):
+            assigns[st.targets[0].id] = st.value
+    rets = [st for st in fn.body if isinstance(st, ast.Return)]
+    if len(rets) != 1 or not isinstance(rets[0].value, ast.Dict):
+        raise Untranslatable("no single returned dict literal")
+    d = {k.value: v for k, v in zip(rets[0].value.keys, rets[0].value.values) if isinstance(k, ast.Constant)}
+    if set(d) != {"Threshold", "Value", "Pass", "P_value"}:
+        raise Untranslatable(f"returned keys {sorted(d)}")
+
+    def res(node):
+        return assigns.get(node.id, node) if isinstance(node, ast.Name) and node.id in assigns and node.id != obs else node
+
+    def is_call(node, mod, name):
+        return isinstance(node, ast.Call) and isinstance(node.func, ast.Attribute) and node.func.attr == name and isinstance(node.func.value, ast.Name) and node.func.value.id == mod
+
+    null_names = {k for k, v in assigns.items() if is_call(v, "np", "empty") or is_call(v, "np", "zeros")}
+    thr_names = {k for k, v in assigns.items() if is_call(v, "np", "percentile")}
+    if len(null_names) != 1 or len(thr_names) != 1:
+        raise Untranslatable("null / threshold variables not recognised")
+    null, thr = next(iter(null_names)), next(iter(thr_names))
+    pc = assigns[thr]
+    if len(pc.args) != 2 or pc.keywords or not (isinstance(pc.args[0], ast.Name) and pc.args[0].id == null) or ast.unparse(pc.args[1]) not in _PCT_FORMS:
+        raise Untranslatable("threshold is not np.percentile(NULL, 100 * (1 - alpha))")
+    if not (isinstance(d["Threshold"], ast.Name) and d["Threshold"].id == thr and isinstance(d["Value"], ast.Name) and d["Value"].id == obs):
+        raise Untranslatable("Threshold / Value entries")
+
+    def cmp_of(node, left, right):
+        node = res(node)
+        if not (isinstance(node, ast.Compare) and len(node.ops) == 1 and type(node.ops[0]) in _CMP and isinstance(node.left, ast.Name) and isinstance(node.comparators[0], ast.Name)):
+            raise Untranslatable("not a single comparison of two names")
+        a, b, op = node.left.id, node.comparators[0].id, _CMP[type(node.ops[0])]
+        if (a, b) == (left, right):
+            return op
+        if (a, b) == (right, left):
+            return _FLIP[op]
+        raise Untranslatable(f"comparison of {a} and {b}")
+
+    pass_op = cmp_of(d["Pass"], obs, thr)
+    pv = res(d["P_value"])
+    if not (is_call(pv, "np", "mean") and len(pv.args) == 1 and not pv.keywords):
+        raise Untranslatable("P_value is not np.mean(<comparison>)")
+    p_op = cmp_of(pv.args[0], null, obs)
+    return {"passOp": pass_op, "pOp": p_op}
+
+
 # ------------------------------------------------------------------ emit + obligations
 
 def generate():
